@@ -232,6 +232,7 @@ type exec struct {
 	mon      *monitor
 	conc     int
 
+	pkg         string // name of the package under test
 	pkgUID      string
 	otherUID    string
 	otherRevUID string
@@ -296,9 +297,12 @@ func (x *exec) attach() {
 	x.reconcile = x.reconcileEmu
 }
 
-func newExec(c *kit.Ctx, caseName string, desc any, kindName string, seed uint64, conc int) *exec {
-	x := &exec{c: c, caseName: caseName, desc: desc, kind: kinds[kindName], conc: conc,
+func newExec(c *kit.Ctx, caseName string, desc any, kindName string, seed uint64, conc int, pkg ...string) *exec {
+	x := &exec{c: c, caseName: caseName, desc: desc, kind: kinds[kindName], conc: conc, pkg: pkgName,
 		revs: map[string]*revInfo{}, rejected: map[sim.Key]bool{}, stats: map[string]int64{}}
+	if len(pkg) > 0 && pkg[0] != "" {
+		x.pkg = pkg[0]
+	}
 	x.w = sim.NewWorld(xrk.Scheme(), seed)
 	x.attach()
 	rej := x.rejected
@@ -310,7 +314,7 @@ func newExec(c *kit.Ctx, caseName string, desc any, kindName string, seed uint64
 	})
 	// the package under test, another package with an active revision, a package that the
 	// harness deletes mid-way (so that the GC actor has legitimate work), and a foreign owner
-	x.pkgUID = x.mkPackage(pkgName)
+	x.pkgUID = x.mkPackage(x.pkg)
 	x.otherUID = x.mkPackage(otherPkg)
 	x.otherRevUID = x.mkRevisionRaw(otherPkg, x.otherUID, otherPkg+"-r1", 1, v1.PackageRevisionActive, false, false)
 	jUID := x.mkPackage(junkPkg)
@@ -334,7 +338,7 @@ func (x *exec) relag(lag func(gk schema.GroupKind) (int64, bool)) {
 // fork continues on an independent copy of the cluster (fault enumeration).
 func (x *exec) fork(caseName string) *exec {
 	n := &exec{c: x.c, caseName: caseName, desc: x.desc, kind: x.kind, conc: x.conc,
-		baseRV: x.baseRV, pkgUID: x.pkgUID, otherUID: x.otherUID, otherRevUID: x.otherRevUID, foreignUID: x.foreignUID,
+		baseRV: x.baseRV, pkg: x.pkg, pkgUID: x.pkgUID, otherUID: x.otherUID, otherRevUID: x.otherRevUID, foreignUID: x.foreignUID,
 		revs: map[string]*revInfo{}, rejected: x.rejected, stats: map[string]int64{}}
 	for k, v := range x.revs {
 		cp := *v
@@ -377,7 +381,7 @@ func (x *exec) mkRevisionRaw(pkg, pkgUID, revName string, no int, state v1.Packa
 
 // mkRevision creates a revision of the package under test.
 func (x *exec) mkRevision(revName string, no int, state v1.PackageRevisionDesiredState, specs []objSpec, content int, tls, commonLabels bool) *revInfo {
-	uid := x.mkRevisionRaw(pkgName, x.pkgUID, revName, no, state, tls, commonLabels)
+	uid := x.mkRevisionRaw(x.pkg, x.pkgUID, revName, no, state, tls, commonLabels)
 	ri := &revInfo{Name: revName, UID: uid, Specs: specs, Content: content, TLS: tls}
 	x.revs[revName] = ri
 	x.mon.revUIDs[uid] = revName
@@ -407,7 +411,7 @@ func (x *exec) seedWithOwners(s objSpec, content int, owners ...ownerRefT) {
 // previous revision of the package under test (classes prevctl / prevreleased), self the
 // revision that is about to establish (class self).
 func (x *exec) seedClass(s objSpec, class string, content int, prev, self *revInfo) {
-	pkgO := ownerRef(x.kind.gvk, pkgName, x.pkgUID, false)
+	pkgO := ownerRef(x.kind.gvk, x.pkg, x.pkgUID, false)
 	pkgO.BlockOwnerDeletion = ptr.To(true)
 	switch class {
 	case "absent", "rejected-absent":
